@@ -38,6 +38,8 @@ class Family:
     engine: str = "symx"       # "symx" | "crosshair" | custom
     reach: list = field(default_factory=list)   # tags that must be witnessed on at least one path (vacuity guard)
     concrete_uf: bool = False
+    concrete_only_validation: bool = False   # validation = run the path model through the REAL float code only (used when the symbolic
+                                             # run abstracts a compiled library by uninterpreted functions: values are not comparable)
     snap: str = "dyadic"      # how exact models become floats: 'dyadic' (2^-30 grid) | 'micro' (1e-6 lattice)
 
 
@@ -223,6 +225,23 @@ def _explore_task(args):
     for env, envf, had_cand in val_jobs:
         if envf is not None:
             envf = {k: (float(v) if isinstance(v, Fraction) else v) for k, v in envf.items()}
+        if fam.concrete_only_validation:
+            if envf is None:
+                continue
+            try:
+                b = run_concrete(fam, case, envf, "concrete")
+            except Exception:
+                res["errors"].append("validation crashed: " + traceback.format_exc(limit=6)[-1500:])
+                continue
+            if b["assumption_failed"]:
+                res["snap_miss"] += 1
+                continue
+            for l in b["failed"][:3]:
+                if len(res["candidates"]) < 80:
+                    res["candidates"].append({"label": l, "region": None, "inputs": {k: _jsonable(v) for k, v in envf.items()},
+                                              "detail": "failed on the real library: " + str(b.get("exception"))})
+            res["validated"] += 1
+            continue
         try:
             x = run_concrete(fam, case, env, "lift", exact=True)        # exact rational model: same path as the symbolic run
             if envf is None:            # no exactly-representable model on this path: engine-vs-float comparison skipped
